@@ -2044,6 +2044,10 @@ BitArrayT<NCapacity>::Bits::operator bool() const noexcept {
 			return true;
 
 	const Short bit = _width % 8;
+
+	if (bit == 0)
+		return false;
+
 	const uint8_t mask = (1 << bit) - 1;
 	const uint8_t& unit = _storage[fullUnits];
 
@@ -2154,6 +2158,10 @@ BitArrayT<NCapacity>::CBits::operator bool() const noexcept {
 			return true;
 
 	const Short bit = _width % 8;
+
+	if (bit == 0)
+		return false;
+
 	const uint8_t mask = (1 << bit) - 1;
 	const uint8_t& unit = _storage[fullUnits];
 
